@@ -23,9 +23,11 @@ import (
 	"testing"
 	"unsafe"
 
+	"github.com/mycoria/mycoria/config"
 	"github.com/mycoria/mycoria/frame"
 
 	"verif/core"
+	"verif/ids"
 	"verif/vnet"
 )
 
@@ -193,7 +195,12 @@ func (w *c17World) visible(m *c17Frame) []byte {
 			return data
 		}
 	}
-	data, _ := m.f.FrameDataWithMargins(m.off, 0)
+	data, err := m.f.FrameDataWithMargins(m.off, 0)
+	if err != nil {
+		// The frame was built (or parsed, or cloned) with this offset in front of
+		// it and needs nothing behind it: its bytes must be readable.
+		w.c.Fatalf("the bytes of live frame #%d (%d bytes, offset %d) cannot be read with the margins it was made with: %v", m.id, n, m.off, err)
+	}
 	return data
 }
 
@@ -699,4 +706,81 @@ func c17Run(c *core.Case, maxOps int) {
 
 func TestC17(t *testing.T) {
 	core.Run(t, c17Opts, func(c *core.Case) { c17Run(c, 40) })
+}
+
+// c17PoolExclusive draws a few buffers of one size class from the builder: the
+// pool must hand out each piece of memory to one holder at a time (a buffer that
+// was given back twice comes out twice, and two frames built on it share their
+// bytes), and recycled memory is zeroed.
+func c17PoolExclusive(c *core.Case, b *frame.Builder, size int, when string) {
+	if size < 1 {
+		size = 1
+	}
+	var got [][]byte
+	for i := 0; i < 4; i++ {
+		ps := b.GetPooledSlice(size)
+		if len(ps) == 0 {
+			break
+		}
+		full := ps[:cap(ps)]
+		for j, x := range full {
+			if x != 0 {
+				c.Fatalf("%s: buffer handed out by the builder's pool is not zeroed (byte %d = %#x)", when, j, x)
+			}
+		}
+		for _, o := range got {
+			if &o[:1][0] == &ps[:1][0] {
+				c.Fatalf("%s: the builder's pool handed out the same %d-byte buffer to two holders at once", when, cap(ps))
+			}
+		}
+		got = append(got, ps)
+	}
+	for _, ps := range got {
+		b.ReturnPooledSlice(ps)
+	}
+}
+
+// TestC17LocalPackets: buffers that carry packets from the local interface into
+// the router (the interface reader takes them from the shared builder's pool and
+// the packet handler gives them back on every path, let in or dropped).
+func TestC17LocalPackets(t *testing.T) {
+	pool := ids.Routable()
+	core.Run(t, core.Opts{ID: "C17", Quick: 300, Thorough: 10000}, func(c *core.Case) {
+		iv := c.Pick("idV", len(pool))
+		ip := c.Pick("idP", len(pool)-1)
+		if ip >= iv {
+			ip++
+		}
+		known := pool[(iv+ip+1)%len(pool)]
+		if known == pool[iv] || known == pool[ip] {
+			known = pool[(iv+ip+2)%len(pool)]
+		}
+		var st config.Store
+		st.Router.Isolate = c.Bool("isolate")
+		vn := vnet.New()
+		V, err := vn.AddNode("V", pool[iv], vnet.NodeOpts{Store: st, WithTun: true})
+		if err != nil {
+			c.Fatalf("node: %v", err)
+		}
+		P, err := vn.AddNode("P", pool[ip], vnet.NodeOpts{})
+		if err != nil {
+			c.Fatalf("node: %v", err)
+		}
+		if _, _, err := vn.Connect(V, P, vnet.LinkOpts{LabelA: 5, LabelB: 6, LatA: 3, LatB: 3}); err != nil {
+			c.Fatalf("connect: %v", err)
+		}
+		tracked := map[string]string{}
+		n := c.Int("packets", 1, 12)
+		for i := 0; i < n; i++ {
+			key, may, tup := c06Outbound(c, vn, V, st.Router.Isolate, func(netip.Addr) bool { return false }, nil, known, P, tracked, nil)
+			if _, seen := tracked[key]; key != "" && !seen && tup.valid {
+				if may {
+					tracked[key] = "allowed"
+				} else {
+					tracked[key] = "prohibited"
+				}
+			}
+		}
+		c.Eval(fmt.Sprintf("local-packets|%d|%v", n, st.Router.Isolate), n >= 2, nil)
+	})
 }
